@@ -1,7 +1,7 @@
 CONSTANTS
   N = 3
   MaxMem = 2
-  MaxReq = 3
+  MaxReq = 2
   Family = "flat"
   FlagFamily = "stops"
   WithBad = FALSE
